@@ -1561,11 +1561,22 @@ func (p *printer) spec(spec ast.Spec, n int, doIndent bool) {
 	}
 }
 
+// valueSpecsHaveType reports whether every value spec in the list declares a type.
+func valueSpecsHaveType(specs []ast.Spec) bool {
+	for _, s := range specs {
+		if vs, ok := s.(*ast.ValueSpec); !ok || vs.Type == nil {
+			return false
+		}
+	}
+	return true
+}
+
 func (p *printer) genDecl(d *ast.GenDecl, isFileScope bool) {
 	p.setComment(d.Doc)
 
-	// 内部省略 var
-	if isFileScope || d.Tok != token.VAR || d.Lparen != token.NoPos {
+	// 内部省略 var (仅当每个变量都带类型时: `a: int = 1`)
+	// 没有类型的 `var a = 1` 省略 var 后是赋值语句 `a = 1`, 含义发生变化
+	if isFileScope || d.Tok != token.VAR || d.Lparen != token.NoPos || !valueSpecsHaveType(d.Specs) {
 		tok := d.Tok
 		if isFileScope && d.Tok == token.VAR {
 			tok = token.GLOBAL
